@@ -65,29 +65,23 @@ def own_region(f, adt_suffix, sw_block, arms, vi):
     return region
 
 
-def binops(chk, facts, rule="C02.TABLE.binop", fname=EV + "Evaluator::partial_interpret_internal", names=("arg1", "arg2"), only=None, floor=12, check_total=True):
+def binops(chk, facts, rule="C02.TABLE.binop", fname=EV + "Evaluator::partial_interpret_internal", kind_suffix="ast::expr::ExprKind", only=None, floor=12, check_total=True):
+    """Operand provenance is structural (no local names): A1 / A2 / OP are whatever derives from the BinaryApp node's arg1 / arg2 / op fields."""
     f = get_fn(chk, facts, rule, fname)
     r = facts.adts.get(BOP)
     if f is None or r is None:
         return
-    val = {}
-    for n, p in f.r["dbg"]:
-        if len(p) != 1:
-            continue
-        ty = f.locals[p[0]]
-        if n in names and ty.endswith("ast::value::Value"):
-            val[p[0]] = "A1" if n == names[0] else "A2"
-        if n == "op" and ty.endswith("ast::ops::BinaryOp"):
-            val[p[0]] = "OP"
-    if sorted(val.values()) != ["A1", "A2", "OP"]:
-        chk.lost(rule, "operand values arg1 / arg2 / op of the BinaryApp arm", "found %s" % sorted(val.values()))
-        return
+    vseed = shape.variant_field_seed(kind_suffix)
+    REN = {"BinaryApp.arg1": "A1", "BinaryApp.arg2": "A2", "BinaryApp.op": "OP"}
+
+    def seed(p):
+        return [REN[x] for x in (vseed(p) or []) if x in REN]
     sws = sorted(shape.variant_switches(f, "ast::ops::BinaryOp"), key=lambda s: -len(s[2]))
     if not sws:
         chk.lost(rule, "match on BinaryOp")
         return
     b, scrut, arms, other = sws[0]
-    L = shape.Labels(f, None, lambda p: [val[p[0]]] if p[0] in val else [],
+    L = shape.Labels(f, None, seed,
                      call_labels=lambda c, t: ["RES:" + k for k, v in PRIMS.items() if c == v] or None)
     prim_names = {v: k for k, v in PRIMS.items()}
     succ = protocol.ok_blocks(f)
@@ -281,7 +275,7 @@ def tpe_in(chk, facts, rule="C14.TABLE.in"):
 def check_tpe(chk, facts, rule="C14.TABLE.binop"):
     """The TPE evaluator's own dispatch on two concrete operands: same primitives, same operand positions
     (`in` and the tag operators are evaluated against partial entities and have no shared primitive: not examined here)."""
-    binops(chk, facts, rule=rule, fname="cedar_policy_core::tpe::evaluator::Evaluator::interpret", names=("v1", "v2"),
+    binops(chk, facts, rule=rule, fname="cedar_policy_core::tpe::evaluator::Evaluator::interpret", kind_suffix="tpe::residual::ResidualKind",
            only=("Eq", "Less", "LessEq", "Add", "Sub", "Mul", "Contains", "ContainsAll", "ContainsAny"), floor=9, check_total=False)
     tpe_in(chk, facts)
 
